@@ -337,12 +337,12 @@ theorem arm_frame_prefix_short (typ : Int) (ht : Armorable typ) (brand : Bytes) 
           simp only [List.mem_cons, List.not_mem_nil, or_false] at hw'
           rcases hw' with rfl | rfl
           · exact ⟨by decide, by decide⟩
-          · exact ⟨hw.1, fun c hc => (alnum_class c (hw.2 c hc)).2.1⟩)]
+          · exact ⟨hw.1, fun c hc => ⟨(alnum_class c (hw.2 c hc)).2.1, alnum_lt c (hw.2 c hc)⟩⟩)]
         exact norm_two _ hw
       · -- after the brand
         have hAl : (Gen.c_sp_headerMarker ++ [space] ++ brand ++ [space]).length = 7 + brand.length := by
           simp only [List.length_append, hBl, List.length_cons, List.length_nil]; omega
-        have hB : ∀ c ∈ Gen.c_sp_headerMarker, isTrimSpace c = false := by decide
+        have hB : ∀ c ∈ Gen.c_sp_headerMarker, isTrimSpace c = false ∧ c < 128 := by decide
         rw [List.take_append, List.take_of_length_le (by omega), hAl]
         by_cases hj : k - (7 + brand.length) = 0
         · rw [hj, List.take_zero, List.append_nil]
@@ -353,7 +353,7 @@ theorem arm_frame_prefix_short (typ : Int) (ht : Armorable typ) (brand : Bytes) 
             simp only [List.mem_cons, List.not_mem_nil, or_false] at hw'
             rcases hw' with rfl | rfl
             · exact ⟨by decide, hB⟩
-            · exact ⟨hbAN.1, fun c hc => (alnum_class c (hbAN.2 c hc)).2.1⟩)]
+            · exact ⟨hbAN.1, fun c hc => ⟨(alnum_class c (hbAN.2 c hc)).2.1, alnum_lt c (hbAN.2 c hc)⟩⟩)]
           exact norm_two _ hbAN
         · obtain ⟨j', hj', hj1, he⟩ := take_cap _ (rest_len sffx hsm) (k - (7 + brand.length))
           obtain ⟨hws, hne, hl3, hi, hchk⟩ := rest_fin sffx hsm j' hj' (hj1 (by omega))
@@ -364,9 +364,110 @@ theorem arm_frame_prefix_short (typ : Int) (ht : Armorable typ) (brand : Bytes) 
               simp only [List.mem_cons] at hw'
               rcases hw' with rfl | rfl | hw'
               · exact ⟨by decide, hB⟩
-              · exact ⟨hbAN.1, fun c hc => (alnum_class c (hbAN.2 c hc)).2.1⟩
-              · exact ⟨(hws w hw').1, fun c hc => (alnum_class c ((hws w hw').2 c hc)).2.1⟩)]
+              · exact ⟨hbAN.1, fun c hc => ⟨(alnum_class c (hbAN.2 c hc)).2.1, alnum_lt c (hbAN.2 c hc)⟩⟩
+              · exact ⟨(hws w hw').1, fun c hc => ⟨(alnum_class c ((hws w hw').2 c hc)).2.1,
+                  alnum_lt c ((hws w hw').2 c hc)⟩⟩)]
           exact norm_brand brand hbAN _ hne hl3 hws hchk
+
+/-- the collapse of a prefix is a prefix of the collapse -/
+theorem collapseAux_take_prefix (b : Bytes) (r : Bool) (k : Nat) :
+    ∃ j, collapseAux r (b.take k) = (collapseAux r b).take j := by
+  refine ⟨(collapseAux r (b.take k)).length, ?_⟩
+  have h : collapseAux r b = collapseAux r (b.take k) ++ collapseAux (endState r (b.take k)) (b.drop k) := by
+    rw [← collapseAux_append, List.take_append_drop]
+  rw [h, List.take_left' rfl]
+
+theorem classifyNorm_nil : classifyNorm [] = .short := by decide
+
+/-- the normalised form of every prefix of a genuine frame line is "short" -/
+theorem norm_frame_prefix_short (typ : Int) (ht : Armorable typ) (brand : Bytes) (hb : BrandOK brand) (j : Nat) :
+    classifyNorm (trimSpace ((Armor.header typ brand).take j)) = .short := by
+  have h := arm_frame_prefix_short typ ht brand hb j
+  rw [armoredPrefix_norm] at h
+  have hcol : collapse ((header typ brand).take j) = (header typ brand).take j :=
+    collapseAux_take _ false j ((frame_canon _ headerMarker_ok (by decide) typ ht brand hb).2.1 false)
+  rw [hcol] at h
+  exact h
+
+/-- **every prefix of a re-flowed frame line is "short"** -/
+theorem arm_variant_prefix_short (typ : Int) (ht : Armorable typ) (brand : Bytes) (hb : BrandOK brand)
+    (f' : Bytes) (hv : FrameVariant (Armor.header typ brand) f') (k : Nat) :
+    armoredPrefix (f'.take k) = .short := by
+  rw [armoredPrefix_norm]
+  unfold collapse
+  obtain ⟨j, hj⟩ := collapseAux_take_prefix f' false k
+  rw [hj]
+  have hasc : ∀ c ∈ collapseAux false f', c < 128 := by
+    intro c hc
+    rcases collapseAux_mem f' false c hc with h | h
+    · exact valid_lt c (hv.valid c h)
+    · subst h; decide
+  obtain ⟨p, q, hp, hq, hC⟩ := trimSpace_decomp _ hasc
+  have hn : trimSpace (collapseAux false f') = header typ brand := hv.norm
+  rw [hn] at hC
+  rw [hC]
+  by_cases hjp : j ≤ p.length
+  · rw [List.append_assoc, List.take_append_of_le_length hjp]
+    have : trimSpace (p.take j) = [] := by
+      have := trimSpace_pre (p.take j) [] (fun c hc => (hp c (List.mem_of_mem_take hc)).1)
+      rw [List.append_nil] at this
+      rw [this]; rfl
+    rw [this]
+    exact classifyNorm_nil
+  · rw [List.append_assoc, List.take_append, List.take_of_length_le (by omega),
+      trimSpace_pre _ _ (fun c hc => (hp c hc).1), List.take_append,
+      trimSpace_post _ _ (fun c hc => (hq c (List.mem_of_mem_take hc)).1)]
+    exact norm_frame_prefix_short typ ht brand hb _
+
+/-- the frame with its period and fewer than 43 payload characters is "short"
+    (general form: anything alphanumeric-or-space after the period) -/
+theorem arm_needs_block_gen (typ : Int) (ht : Armorable typ) (brand : Bytes) (hb : BrandOK brand) (w : Bytes)
+    (hw : ∀ c ∈ w, isAlnum c = true ∨ c = Armor.space)
+    (hfew : (w.filter (· != Armor.space)).length < 43) :
+    armoredPrefix (Armor.header typ brand ++ [Armor.period] ++ w) = .short := by
+  obtain ⟨sffx, hts, hs⟩ := (armorable_sffx typ ht).2
+  have hcan := frame_canon _ headerMarker_ok (by decide) typ ht brand hb
+  have hF : makeFrame Gen.c_sp_headerMarker typ brand = header typ brand := rfl
+  rw [hF] at hcan
+  have hcol : collapse (header typ brand ++ [period] ++ w) =
+      (header typ brand ++ [period]) ++ collapseAux false w := by
+    unfold collapse
+    rw [List.append_assoc, collapseAux_append, hcan.2.1 false]
+    have hp : isFrameSpace period = false := by decide
+    simp [collapseAux, hp]
+  have hW : ∀ c ∈ collapseAux false w, isAlnum c = true ∨ c = space := by
+    intro c hc
+    rcases collapseAux_mem w false c hc with h | h
+    · exact hw c h
+    · exact Or.inr h
+  have hWf : (collapseAux false w).filter (· != space) = w.filter (· != space) :=
+    collapseAux_filter w hw false
+  obtain ⟨hZ, hZf⟩ := rtrim_facts _ hW
+  have hhead : ∀ c ∈ (header typ brand ++ [period]).head?, isTrimSpace c = false := by
+    rw [(header_shape typ sffx hts brand).1]
+    split <;> (intro c hc; simp [Gen.c_sp_headerMarker] at hc; subst hc; decide)
+  have htrim := trim_tail (header typ brand ++ [period]) (collapseAux false w) hhead
+    (by intro c hc; simp at hc; subst hc; decide) (by simp)
+    (by
+      intro c hc
+      rcases List.mem_append.mp hc with hc | hc
+      · rcases List.mem_append.mp hc with hc | hc
+        · exact valid_lt c (hcan.1 c hc)
+        · rw [List.mem_singleton] at hc; subst hc; decide
+      · rcases hW c hc with h | h
+        · exact alnum_lt c h
+        · subst h; decide)
+  rw [armoredPrefix_norm, hcol, htrim, List.append_assoc, List.singleton_append]
+  unfold classifyNorm
+  rw [matchHeader_frame typ sffx hts hs brand hb _ hZ]
+  simp only [hZf, hWf]
+  rw [if_pos (decodePrefix_short _ hfew)]
+
+/-- the frame line with just its period is "short" -/
+theorem arm_frame_period (typ : Int) (ht : Armorable typ) (brand : Bytes) (hb : BrandOK brand) :
+    armoredPrefix (Armor.header typ brand ++ [Armor.period]) = .short := by
+  have := arm_needs_block_gen typ ht brand hb [] (by simp) (by simp)
+  simpa using this
 
 /-- the frame with its period but fewer than one full block of payload
     characters is "short" -/
@@ -374,42 +475,18 @@ theorem arm_needs_block (typ : Int) (ht : Armorable typ) (brand : Bytes) (hb : B
     (hbody : ∀ c ∈ body, isAlnum c = true ∨ c = Armor.space)
     (hfew : (body.filter (· != Armor.space)).length < 43) :
     armoredPrefix (Armor.header typ brand ++ [Armor.period, Armor.space] ++ body) = .short := by
-  obtain ⟨sffx, hts, hs⟩ := (armorable_sffx typ ht).2
-  have hcan := frame_canon _ headerMarker_ok (by decide) typ ht brand hb
-  have hF : makeFrame Gen.c_sp_headerMarker typ brand = header typ brand := rfl
-  rw [hF] at hcan
-  -- collapse
-  have hcol : collapse (header typ brand ++ [period, space] ++ body) =
-      (header typ brand ++ [period]) ++ (space :: collapseAux true body) := by
-    unfold collapse
-    rw [List.append_assoc, collapseAux_append, hcan.2.1 false]
-    have hp : isFrameSpace period = false := by decide
-    have hsp : isFrameSpace space = true := by decide
-    simp [collapseAux, hp, hsp]
-  -- the collapsed tail
-  have hW : ∀ c ∈ space :: collapseAux true body, isAlnum c = true ∨ c = space := by
-    intro c hc
-    simp only [List.mem_cons] at hc
-    rcases hc with h | hc
-    · exact Or.inr h
-    · rcases collapseAux_mem body true c hc with h | h
-      · exact hbody c h
+  have := arm_needs_block_gen typ ht brand hb (Armor.space :: body)
+    (by
+      intro c hc
+      rcases List.mem_cons.mp hc with h | h
       · exact Or.inr h
-  have hWf : (space :: collapseAux true body).filter (· != space) = body.filter (· != space) := by
-    rw [List.filter_cons, collapseAux_filter body hbody true]
-    simp
-  obtain ⟨hZ, hZf⟩ := rtrim_facts _ hW
-  -- trim
-  have hhead : ∀ c ∈ (header typ brand ++ [period]).head?, isTrimSpace c = false := by
-    rw [(header_shape typ sffx hts brand).1]
-    split <;> (intro c hc; simp [Gen.c_sp_headerMarker] at hc; subst hc; decide)
-  have htrim := trim_tail (header typ brand ++ [period]) (space :: collapseAux true body) hhead
-    (by intro c hc; simp at hc; subst hc; decide) (by simp)
-  rw [armoredPrefix_norm, hcol, htrim, List.append_assoc, List.singleton_append]
-  unfold classifyNorm
-  rw [matchHeader_frame typ sffx hts hs brand hb _ hZ]
-  simp only [hZf, hWf]
-  rw [if_pos (decodePrefix_short _ hfew)]
+      · exact hbody c h)
+    (by
+      rw [List.filter_cons]
+      have : (Armor.space != Armor.space) = false := by decide
+      simp only [this, Bool.false_eq_true, if_false]
+      exact hfew)
+  simpa using this
 
 namespace ClsAux
 
@@ -470,10 +547,16 @@ theorem matchHeader_type (s brand t p : Bytes) (h : matchHeader s = some (brand,
 end ClsAux
 open ClsAux
 
-/-- an answer of the armored classifier is an answer of the binary classifier on
-    decoded payload bytes, under a frame label that matches the mode -/
+/-- an answer of the armored classifier is the answer of the binary classifier on
+    the bytes decoded from the payload characters this very prefix shows after
+    its frame (at least one full block of 32 bytes), under a frame label that
+    matches the mode -/
 theorem arm_sound (pref brand : Bytes) (t : Int) (v : Version) (h : armoredPrefix pref = .ok (brand, t, v)) :
-    ∃ typStr payload dec, matchHeader (Armor.trimSpace (Armor.collapse pref)) = some (brand, typStr, payload) ∧
+    ∃ typStr payload chars dec,
+      matchHeader (Armor.trimSpace (Armor.collapse pref)) = some (brand, typStr, payload) ∧
+      chars = payload.filter (· != Armor.space) ∧
+      dec = (Basex.decodePrefix Gen.base62Std (chars.length + 1) chars).1 ∧
+      32 ≤ dec.length ∧
       binarySlice dec = .ok (t, v) ∧
       (typStr = Gen.c_sp_EncryptionArmorString ∨ typStr = Gen.c_sp_SignedArmorString ∨
         typStr = Gen.c_sp_DetachedSignatureArmorString) ∧
@@ -488,7 +571,8 @@ theorem arm_sound (pref brand : Bytes) (t : Int) (v : Version) (h : armoredPrefi
   · rename_i brand' typStr payload hm
     split at h
     · cases h
-    · split at h
+    · rename_i hlen
+      split at h
       any_goals cases h
       rename_i t' ver hbin
       split at h
@@ -496,14 +580,90 @@ theorem arm_sound (pref brand : Bytes) (t : Int) (v : Version) (h : armoredPrefi
       · rename_i hlab
         cases h
         have hty := matchHeader_type _ _ _ _ hm
-        refine ⟨typStr, payload, _, hm, hbin, hty, ?_⟩
+        refine ⟨typStr, payload, _, _, hm, rfl, rfl, by omega, hbin, hty, ?_⟩
         have hmode := bin_modes _ _ _ hbin
         rcases hty with rfl | rfl | rfl <;> rcases hmode with rfl | rfl | rfl | rfl <;>
           revert hlab <;> decide
 
-/-- classification never consumes: `classifyStream` is a function of the
-    peeked bytes (structural — the model threads no reader state at all) -/
-theorem stream_is_pure (size : Nat) (a b : Bytes) (h : a = b) : classifyStream size a = classifyStream size b := by
-  subst h; rfl
+/-! ## the stream classifier -/
+
+/-- `classifyStream` looks at the first `size` bytes only -/
+theorem stream_take (size : Nat) (all : Bytes) : classifyStream size all = classifyStream size (all.take size) := by
+  unfold classifyStream
+  simp only [List.take_take, Nat.min_self]
+  generalize (if (List.take size all).isEmpty = true then Verdict.notSaltpack else armoredPrefix (List.take size all)) = arm
+  cases arm with
+  | notSaltpack =>
+    simp only
+    by_cases hs : size < minLen
+    · rw [if_pos hs, if_pos hs]
+    · rw [if_neg hs, if_neg hs]
+      have h1 : (all.length < minLen) ↔ ((all.take size).length < minLen) := by
+        rw [List.length_take]; omega
+      have h2 : min minLen size = minLen := by omega
+      simp only [h1, h2]
+  | _ => rfl
+
+/-- **peeks only**: the answer depends on nothing but what `Peek(size)` returns -/
+theorem stream_peeks_only (size : Nat) (a b : Bytes) (h : a.take size = b.take size) :
+    classifyStream size a = classifyStream size b := by
+  rw [stream_take size a, stream_take size b, h]
+
+theorem arm_nil : armoredPrefix [] = .short := by decide
+
+/-- whatever the armored classifier says "yes" to on the peeked bytes is the stream's answer -/
+theorem stream_armored_correct (size : Nat) (m brand : Bytes) (t : Int) (v : Version)
+    (h : armoredPrefix (m.take size) = .ok (brand, t, v)) :
+    classifyStream size m = .ok (true, brand, t, v) := by
+  unfold classifyStream
+  have hne : (m.take size).isEmpty = false := by
+    cases hm : m.take size with
+    | nil => rw [hm, arm_nil] at h; cases h
+    | cons _ _ => rfl
+  simp only [hne, Bool.false_eq_true, if_false, h]
+
+/-- a text that starts with a bin8/16/32 tag byte is not armor -/
+theorem arm_binlead (k : UInt8) (hk : BinLead k) (y : Bytes) : armoredPrefix (k :: y) = .notSaltpack := by
+  have hfs : isFrameSpace k = false := by rcases hk with rfl | rfl | rfl <;> decide
+  have hcl : clash (Gen.c_sp_headerMarker ++ [Armor.space]) [k] = true := by rcases hk with rfl | rfl | rfl <;> decide
+  have han : (isAlnum k || k == Armor.space) = false := by rcases hk with rfl | rfl | rfl <;> decide
+  rw [armoredPrefix_norm]
+  have hcol : collapse (k :: y) = k :: collapseAux false y := by
+    unfold collapse; rw [collapseAux, if_neg (by simp [hfs])]
+  rw [hcol]
+  obtain ⟨z, hz⟩ := trimSpace_binlead k hk (collapseAux false y)
+  rw [hz]
+  unfold classifyNorm
+  have hmh : matchHeader (k :: z) = none := by
+    unfold matchHeader
+    have := stripPrefix_none (Gen.c_sp_headerMarker ++ [Armor.space]) [k] z hcl
+    simp only [List.singleton_append] at this
+    rw [this]
+  rw [hmh]
+  have hfw : fewWords (k :: z) = false := by
+    unfold fewWords
+    simp [han]
+  simp [hfw]
+
+/-- **the stream classifier on a genuine binary message**: for a reader of at
+    least 23 bytes, `(false, "", mode, version)` -/
+theorem stream_binary_correct (btag atag tail : Bytes) (hb : IsBinTag btag) (ha : IsArrTag atag)
+    (ma mi t : Nat) (hma : ma < 128) (hmi : mi < 128) (ht : isMode (t : Int) = true) (size : Nat) (hs : 23 ≤ size)
+    (hlen : 23 ≤ (btag ++ atag ++ encode (.str Gen.c_sp_FormatName) ++ encode (.arr [.int ma, .int mi]) ++ encode (.int t) ++ tail).length) :
+    classifyStream size (btag ++ atag ++ encode (.str Gen.c_sp_FormatName) ++ encode (.arr [.int ma, .int mi]) ++ encode (.int t) ++ tail) =
+      .ok (false, [], (t : Int), ⟨ma, mi⟩) := by
+  have hbin := bin_correct_prefix btag atag tail hb ha ma mi t hma hmi ht 23 (Nat.le_refl _) hlen
+  generalize hM : btag ++ atag ++ encode (.str Gen.c_sp_FormatName) ++ encode (.arr [.int ma, .int mi]) ++ encode (.int t) ++ tail = M at *
+  have hlead : ∃ k y, BinLead k ∧ M = k :: y := by
+    rcases hb with ⟨a, rfl⟩ | ⟨a, b, rfl⟩ | ⟨a, b, c, d, rfl⟩
+    · exact ⟨0xc4, _, Or.inl rfl, by rw [← hM]; simp only [List.cons_append]; rfl⟩
+    · exact ⟨0xc5, _, Or.inr (Or.inl rfl), by rw [← hM]; simp only [List.cons_append]; rfl⟩
+    · exact ⟨0xc6, _, Or.inr (Or.inr rfl), by rw [← hM]; simp only [List.cons_append]; rfl⟩
+  obtain ⟨k, y, hk, rfl⟩ := hlead
+  unfold classifyStream
+  obtain ⟨s', rfl⟩ : ∃ s', size = s' + 1 := ⟨size - 1, by omega⟩
+  rw [List.take_succ_cons]
+  simp only [List.isEmpty_cons, Bool.false_eq_true, if_false, arm_binlead k hk]
+  rw [minLen_eq, if_neg (by omega), if_neg (by omega), hbin]
 
 end Saltpack.Proofs
